@@ -389,6 +389,35 @@ theorem modeKeeper_emitRData (t : Nat) (d : RData) (hp : d.proved = true) : Mode
     simp only [List.mem_cons, List.not_mem_nil, or_false] at hf
     rcases hf with rfl | rfl | rfl | rfl
     all_goals first | exact modeKeeper_emitU16 _ | exact modeKeeper_emitU8 _ | exact modeKeeper_emitSlice _
+  case naptr order pref flags services regexp n =>
+    refine modeKeeper_withRdataBehavior (modeKeeper_seqAll _ ?_) _
+    intro f hf
+    simp only [List.mem_cons, List.not_mem_nil, or_false] at hf
+    rcases hf with rfl | rfl | rfl | rfl | rfl | rfl
+    · exact modeKeeper_emitU16 _
+    · exact modeKeeper_emitU16 _
+    · exact modeKeeper_emitCharacterData _
+    · exact modeKeeper_emitCharacterData _
+    · exact modeKeeper_emitCharacterData _
+    · exact modeKeeper_emitName _
+  case sig covered alg labels ottl exp inc tag signer sg =>
+    refine modeKeeper_withRdataBehavior (modeKeeper_seqAll _ ?_) _
+    intro f hf
+    simp only [List.mem_cons, List.not_mem_nil, or_false] at hf
+    rcases hf with rfl | rfl
+    · refine modeKeeper_withRdataBehavior (modeKeeper_seqAll _ ?_) _
+      intro g hg
+      simp only [List.mem_cons, List.not_mem_nil, or_false] at hg
+      rcases hg with rfl | rfl | rfl | rfl | rfl | rfl | rfl | rfl
+      · exact modeKeeper_emitU16 _
+      · exact modeKeeper_emitU8 _
+      · exact modeKeeper_emitU8 _
+      · exact modeKeeper_emitU32 _
+      · exact modeKeeper_emitU32 _
+      · exact modeKeeper_emitU32 _
+      · exact modeKeeper_emitU16 _
+      · exact modeKeeper_emitName _
+    · exact modeKeeper_emitSlice _
   case caa cr rs tag v =>
     refine modeKeeper_withRdataBehavior (modeKeeper_seqAll _ ?_) _
     intro f hf
